@@ -299,6 +299,8 @@ def generate() -> str:
 
 
 EXTRA_SECTIONS: list = []
+from extract_collect import collect_section  # C13
+EXTRA_SECTIONS.append(collect_section)  # C13
 
 
 def main(write: bool = True) -> int:
